@@ -195,7 +195,7 @@ pub fn run_case(prop: &str, tapes: &mut Tapes) -> Result<CaseResult, HarnessErro
             let mut o: ExecOpts = $opts;
             // Bounded liveness: with a finite data source the engine must finish within a
             // number of adapter events proportional to the work the model had to do.
-            o.event_cap = 400 * model.steps + 50_000;
+            o.event_cap = model.event_cap();
             let e = exec(&w, o, sched);
             sched = e.sched.clone();
             harness_check(&e)?;
@@ -279,7 +279,7 @@ pub fn run_case(prop: &str, tapes: &mut Tapes) -> Result<CaseResult, HarnessErro
                 // F7: several live result iterators on one adapter.
                 let cfg = if sched.draw(2) == 1 { SchedCfg::draw(&mut sched, false) } else { SchedCfg::lazy() };
                 let n_streams = 2 + sched.draw(2) as usize;
-                let io = exec_interleaved(&w, cfg, sched, n_streams, (400 * model.steps + 50_000) * n_streams as u64);
+                let io = exec_interleaved(&w, cfg, sched, n_streams, (model.event_cap()) * n_streams as u64);
                 sched = io.sched.clone();
                 if let Ending::HarnessBug(m) = &io.ending {
                     return Err(HarnessError(format!("harness self-check: {m}")));
@@ -475,7 +475,13 @@ pub fn run_case(prop: &str, tapes: &mut Tapes) -> Result<CaseResult, HarnessErro
                     match prop {
                         "C09" => {
                             if let Some(v) = panic_violation(prop, name, e) {
-                                cx.violations.push(v);
+                                // where the model is silent there is no yardstick for "too
+                                // much work": only panics count
+                                if !(model.undefined.is_some() && matches!(e.ending, Ending::EventCap)) {
+                                    cx.violations.push(v);
+                                } else {
+                                    cx.stats.inconclusive.push(format!("{name}: event-cap with silent model"));
+                                }
                             }
                         }
                         "C13" => {
@@ -488,7 +494,7 @@ pub fn run_case(prop: &str, tapes: &mut Tapes) -> Result<CaseResult, HarnessErro
                 }
                 if prop == "C09" {
                     let cfg = SchedCfg::draw(&mut sched, true);
-                    let io = exec_interleaved(&w, cfg, sched, 2, (400 * model.steps + 50_000) * 2);
+                    let io = exec_interleaved(&w, cfg, sched, 2, (model.event_cap()) * 2);
                     sched = io.sched.clone();
                     if let Ending::HarnessBug(m) = &io.ending {
                         return Err(HarnessError(format!("harness self-check: {m}")));
